@@ -2553,8 +2553,11 @@ def _remove_file_with_readonly_handling(path: bytes) -> None:
 
 def _remove_empty_parents(path: bytes, stop_at: bytes) -> None:
     """Remove empty parent directories up to stop_at."""
-    parent = os.path.dirname(path)
-    while parent and parent != stop_at:
+    # (compare normalised paths: a work tree configured as "/x/wt/" is never
+    # byte-identical to a dirname, and the loop would climb out of it)
+    stop_at = os.path.normpath(stop_at)
+    parent = os.path.dirname(os.path.normpath(path))
+    while parent and parent != stop_at and parent != os.path.dirname(parent):
         try:
             os.rmdir(parent)
             parent = os.path.dirname(parent)
